@@ -127,9 +127,10 @@ func (handler *HeadersHandler) Handle(ctx context.Context, m wire.Message) ([]wi
 			logger.Stringer("last_hash", lastHash),
 		}, "Header not next")
 
-		// Check if we already have this block
+		// Check if we already have this block. The block processor takes a block out of the
+		// requests before it adds it to the block repository, so it can be in neither.
 		if handler.blocks.Contains(hash) || handler.state.BlockIsRequested(hash) ||
-			handler.state.BlockIsToBeRequested(hash) {
+			handler.state.BlockIsToBeRequested(hash) || handler.state.BlockIsProcessing(hash) {
 			continue
 		}
 
